@@ -11,6 +11,8 @@ from concurrent.futures import ThreadPoolExecutor
 
 names = sys.argv[1:] or sorted(os.path.basename(os.path.dirname(p)) for p in glob.glob('/verif/refactors/*/patch.diff'))
 ids = [c['property_id'] for c in json.load(open('/verif/MANIFEST.json'))['checks']]
+if os.environ.get('REFACTOR_IDS'):
+    ids = [i for i in ids if i in os.environ['REFACTOR_IDS'].split(',')]
 bad = 0
 
 
